@@ -178,4 +178,386 @@ Proof.
     - apply (FdX_keep s s1 (j_fx _ _ Jh)); try reflexivity; intros; repeat split. }
   eapply Post_fr; [apply (Fr_plain s s1); reflexivity|]. apply events_loop_post. exact J1.
 Qed.
+
+Lemma mview_fields : forall m' m0, mview m' = mview m0 ->
+  a_fd m' = a_fd m0 /\ a_fh m' = a_fh m0 /\ a_ck m' = a_ck m0 /\ a_tm m' = a_tm m0 /\ a_exp m' = a_exp m0 /\
+  a_tk m' = a_tk m0 /\ a_ev m' = a_ev m0 /\ a_evp m' = a_evp m0 /\ a_rw m' = a_rw m0 /\ a_main m' = a_main m0 /\
+  a_quit m' = a_quit m0 /\ a_clk m' = a_clk m0.
+Proof.
+  intros m' m0 V.
+  repeat split.
+  - change (a_fd (mview m') = a_fd (mview m0)); rewrite V; reflexivity.
+  - change (a_fh (mview m') = a_fh (mview m0)); rewrite V; reflexivity.
+  - change (a_ck (mview m') = a_ck (mview m0)); rewrite V; reflexivity.
+  - change (a_tm (mview m') = a_tm (mview m0)); rewrite V; reflexivity.
+  - change (a_exp (mview m') = a_exp (mview m0)); rewrite V; reflexivity.
+  - change (a_tk (mview m') = a_tk (mview m0)); rewrite V; reflexivity.
+  - change (a_ev (mview m') = a_ev (mview m0)); rewrite V; reflexivity.
+  - change (a_evp (mview m') = a_evp (mview m0)); rewrite V; reflexivity.
+  - change (a_rw (mview m') = a_rw (mview m0)); rewrite V; reflexivity.
+  - change (a_main (mview m') = a_main (mview m0)); rewrite V; reflexivity.
+  - change (a_quit (mview m') = a_quit (mview m0)); rewrite V; reflexivity.
+  - change (a_clk (mview m') = a_clk (mview m0)); rewrite V; reflexivity.
+Qed.
+
+(* ---------- raw events and descriptor callbacks ---------- *)
+Lemma J_set_kern_plain : forall b s k1, J b s -> ksame (kern s) k1 -> J b (set_kern s k1).
+Proof.
+  intros b s k1 Jh (C & F & E).
+  apply (J_upd b s _ Jh); try reflexivity; try (apply (j_good _ _ Jh));
+    try (solve [left; repeat split; first [reflexivity | assumption | intros; apply fkeep_refl]]).
+  - apply (FdI_keep s _ (-1) (j_fd _ _ Jh)); try reflexivity; assumption.
+  - apply (FdX_keep s _ (j_fx _ _ Jh)); try reflexivity; intros; repeat split.
+Qed.
+
+Lemma raw_got_event_post : forall s j, J true s -> (j = KICK_RAW \/ (inr16 j /\ rw_reg s j = true)) ->
+  Post true s (raw_got_event sc s j).
+Proof.
+  intros s j Jh JR. unfold raw_got_event.
+  pose proof (ksame_read (kern s) (rw_rfd s j) (if efd_raw s =? 0 then 1024 else 8)) as KS.
+  destruct (k_read (kern s) (rw_rfd s j) (if efd_raw s =? 0 then 1024 else 8)) as [k1 [n|e]]; cbn [fst] in KS.
+  - destruct (n =? 0).
+    + cbn [Post halt]. rewrite mst_emit. apply good_quiet; [left; reflexivity|apply (j_good _ _ Jh)].
+    + pose proof (J_set_kern_plain true s k1 Jh KS) as J1.
+      set (s1 := set_kern s k1) in *.
+      eapply Post_fr; [apply (Fr_plain s s1); reflexivity|].
+      destruct (Z.eqb_spec j KICK_RAW) as [EK|NK]; [apply run_pending_events_post; exact J1|].
+      destruct JR as [JR|[JR1 JR2]]; [contradiction|].
+      assert (J2 : J true (emit s1 (TCallRaw j))).
+      { apply J_event_same; [exact J1|apply mview_TCallRaw|].
+        apply good_TCallRaw; [apply (j_good _ _ J1)|apply (j_main _ _ J1)|].
+        rewrite (J_AgRw _ _ J1 j JR1). exact JR2. }
+      eapply Post_fr; [apply (Fr_plain s1 (emit s1 (TCallRaw j))); reflexivity|].
+      apply run_script_post. exact J2.
+  - destruct e; try (cbn [Post halt]; rewrite mst_emit; apply good_quiet; [left; reflexivity|apply (j_good _ _ Jh)]).
+    cbn [Post]. split; [apply J_set_kern_plain; assumption|apply Fr_plain; reflexivity].
+Qed.
+
+Lemma call_fd_post : forall s k band h, J true s -> 0 <= k <= 32 -> registered (fdt s k) = true ->
+  ((band = 0 /\ h = h_in (fdt s k)) \/ (band = 1 /\ h = h_out (fdt s k)) \/ (band = 2 /\ h = h_err (fdt s k))) ->
+  Post true s (call_fd sc s k band h).
+Proof.
+  intros s k band h Jh K RG HB. unfold call_fd.
+  destruct h as [hid|]; [|apply Post_same; assumption].
+  pose proof (j_fx _ _ Jh) as FX.
+  destruct (Z_lt_le_dec k 16) as [KU|KR].
+  - (* a user descriptor *)
+    assert (I : inr16 k) by (unfold inr16; lia).
+    destruct (fx_userh _ FX k I) as (U1 & U2 & U3).
+    assert (HR : 0 <= hid < 16).
+    { destruct HB as [[_ E]|[[_ E]|[_ E]]]; symmetry in E; [apply U1|apply U2|apply U3]; exact E. }
+    destruct (Z.leb_spec 1000 hid) as [L|L]; [lia|].
+    destruct (J_AgFd _ _ Jh k I) as (A1 & A2 & A3 & A4 & A5).
+    assert (J2 : J true (emit s (TCallFd k band hid (cookie (getfd s k))))).
+    { apply J_event_same; [exact Jh|apply mview_TCallFd|].
+      apply good_TCallFd; [apply (j_good _ _ Jh)|apply (j_main _ _ Jh)|congruence| |exact A5].
+      destruct HB as [[-> E]|[[-> E]|[-> E]]]; congruence. }
+    eapply Post_fr; [apply (Fr_plain s (emit s (TCallFd k band hid (cookie (getfd s k))))); reflexivity|].
+    apply run_script_post. exact J2.
+  - (* the descriptor inside a raw event *)
+    destruct (fx_rawh _ FX k ltac:(lia)) as (U1 & U2 & U3).
+    assert (HR : hid = 1000 + (k - 16)).
+    { destruct HB as [[_ E]|[[_ E]|[_ E]]]; symmetry in E; [apply U1|apply U2|apply U3]; exact E. }
+    destruct (Z.leb_spec 1000 hid) as [L|L]; [|lia].
+    apply raw_got_event_post; [exact Jh|].
+    replace (hid - 1000) with (k - 16) by lia.
+    destruct (Z.eq_dec (k - 16) KICK_RAW) as [E|N]; [left; exact E|right].
+    unfold KICK_RAW in N. split; [unfold inr16; lia|].
+    apply (fx_raw _ FX (k - 16)); [lia|]. replace (16 + (k - 16)) with k by lia. exact RG.
+Qed.
+
+(* ---------- iv_fd_poll_and_run's dispatch loop ---------- *)
+Definition Post0 (b : bool) (s : core) (r : res) : Prop :=
+  match r with R s' => J b s' /\ (cur s = None -> cur s' = None) | Halt s' => Goodm (mst s') end.
+
+Lemma Post_Post0 : forall b s r, Post b s r -> Post0 b s r.
+Proof. intros b s r P. destruct r; cbn [Post Post0] in *; [|assumption]. destruct P as [A [_ C]]. auto. Qed.
+
+Lemma Post0_bind : forall b s r f, Post0 b s r ->
+  (forall s1, J b s1 -> (cur s = None -> cur s1 = None) -> Post0 b s1 (f s1)) -> Post0 b s (bind r f).
+Proof.
+  intros b s r f P K. destruct r as [s1|s1]; cbn [bind Post0] in *; [|assumption].
+  destruct P as [J1 C1]. specialize (K s1 J1 C1).
+  destruct (f s1) as [s2|s2]; cbn [Post0] in *; [|assumption].
+  destruct K as [J2 C2]. auto.
+Qed.
+
+Lemma Post0_cur : forall b s0 s r, (cur s0 = None -> cur s = None) -> Post0 b s r -> Post0 b s0 r.
+Proof. intros b s0 s r C P. destruct r; cbn [Post0] in *; [|assumption]. destruct P as [A B]. auto. Qed.
+
+Lemma guarded_call : forall s k band (c : bool), J true s -> 0 <= k <= 32 ->
+  (handled s = Some k \/ handled s = None) -> (band = 0 \/ band = 1 \/ band = 2) ->
+  let h := if band =? 0 then h_in (fdt s k) else if band =? 1 then h_out (fdt s k) else h_err (fdt s k) in
+  Post true s (match handled s with
+               | Some _ => if c then call_fd sc s k band h else R s
+               | None => R s
+               end).
+Proof.
+  intros s k band c Jh K H B h.
+  destruct (handled s) as [k'|] eqn:HD; [|apply Post_same; assumption].
+  destruct c; [|apply Post_same; assumption].
+  destruct H as [H|H]; [|discriminate]. inversion H; subst k'.
+  destruct (fi_handled s (-1) (j_fd _ _ Jh) k HD) as [_ RG]. specialize (RG ltac:(lia)).
+  apply call_fd_post; try assumption.
+  unfold h. destruct B as [->|[->| ->]]; cbn; auto.
+Qed.
+
+Lemma J_pop_active : forall s k rest, J true s -> active s = k :: rest ->
+  J true (set_handled (set_active s rest) (Some k)) /\ 0 <= k <= 32.
+Proof.
+  intros s k rest Jh A.
+  pose proof (j_fd _ _ Jh) as FI. destruct FI as [F1 F2 F3 F4 F5 F6 F7 F8].
+  assert (OK : okk s (-1) k) by (apply F1; rewrite A; left; reflexivity).
+  split; [|apply OK].
+  set (s1 := set_handled _ _).
+  apply (J_upd true s s1 Jh); try reflexivity; try (apply (j_good _ _ Jh));
+    try (solve [left; repeat split; first [reflexivity | intros; apply fkeep_refl]]).
+  - constructor.
+    + intros y H. apply F1. rewrite A. right. exact H.
+    + intros y H. cbn [s1 handled set_handled] in H. inversion H; subst y. exact OK.
+    + exact F3.
+    + exact F4.
+    + exact F5.
+    + exact F6.
+    + exact F7.
+    + exact F8.
+  - apply (FdX_keep s s1 (j_fx _ _ Jh)); try reflexivity; intros; repeat split.
+Qed.
+
+Lemma dispatch_active_post : forall fuel s, J true s -> Post0 true s (dispatch_active sc fuel s).
+Proof.
+  induction fuel as [|fuel IH]; intros s Jh; cbn [dispatch_active].
+  - destruct (active s) as [|k rest]; [cbn [Post0]; auto|].
+    cbn [Post0 halt]. rewrite mst_emit. apply good_quiet; [right; left; reflexivity|apply (j_good _ _ Jh)].
+  - destruct (active s) as [|k rest] eqn:A; [cbn [Post0]; auto|].
+    destruct (J_pop_active s k rest Jh A) as [J1 K].
+    set (s1 := set_handled (set_active s rest) (Some k)) in *.
+    apply (Post0_cur true s s1); [intros H; exact H|].
+    (* error band *)
+    assert (PA : Post true s1 (if has (ready (getfd s1 k)) M_ERR then call_fd sc s1 k 2 (h_err (getfd s1 k)) else R s1)).
+    { pose proof (guarded_call s1 k 2 (has (ready (getfd s1 k)) M_ERR) J1 K (or_introl eq_refl) ltac:(auto)) as Q.
+      cbv zeta in Q. change (handled s1) with (Some k) in Q. cbn in Q. exact Q. }
+    destruct (if has (ready (getfd s1 k)) M_ERR then call_fd sc s1 k 2 (h_err (getfd s1 k)) else R s1) as [s2|s2];
+      cbn [bind Post Post0] in *; [|exact PA].
+    destruct PA as [J2 F2].
+    (* input band *)
+    pose proof (guarded_call s2 k 0 (has (ready (getfd s2 k)) M_IN) J2 K (proj1 F2) ltac:(auto)) as PB.
+    cbv zeta in PB. cbn [Z.eqb] in PB.
+    match type of PB with Post true s2 ?X => change X with
+      (match handled s2 with
+       | Some _ => if has (ready (getfd s2 k)) M_IN then call_fd sc s2 k 0 (h_in (getfd s2 k)) else R s2
+       | None => R s2 end) in PB end.
+    destruct (match handled s2 with
+       | Some _ => if has (ready (getfd s2 k)) M_IN then call_fd sc s2 k 0 (h_in (getfd s2 k)) else R s2
+       | None => R s2 end) as [s3|s3]; cbn [bind Post Post0] in *; [|exact PB].
+    destruct PB as [J3 F3].
+    pose proof (Fr_trans _ _ _ F2 F3) as F13.
+    (* output band *)
+    pose proof (guarded_call s3 k 1 (has (ready (getfd s3 k)) M_OUT) J3 K (proj1 F13) ltac:(auto)) as PC.
+    cbv zeta in PC. cbn [Z.eqb Pos.eqb] in PC.
+    match type of PC with Post true s3 ?X => change X with
+      (match handled s3 with
+       | Some _ => if has (ready (getfd s3 k)) M_OUT then call_fd sc s3 k 1 (h_out (getfd s3 k)) else R s3
+       | None => R s3 end) in PC end.
+    destruct (match handled s3 with
+       | Some _ => if has (ready (getfd s3 k)) M_OUT then call_fd sc s3 k 1 (h_out (getfd s3 k)) else R s3
+       | None => R s3 end) as [s4|s4]; cbn [bind Post Post0] in *; [|exact PC].
+    destruct PC as [J4 F4].
+    pose proof (Fr_trans _ _ _ F13 F4) as F14.
+    apply (Post0_cur true s1 s4); [apply (proj2 F14)|]. apply IH. exact J4.
+Qed.
+
+(* ---------- iv_run_timers ---------- *)
+Lemma J_call_timer : forall s t rest, J true s -> HeapModel.batch (heap s) = t :: rest ->
+  let s1 := validate_now (set_heap s (HeapModel.set_idx (HeapModel.set_batch (heap s) rest) t (-1))) in
+  J true (emit s1 (TCallTimer (Zpos t - 1) (time s1))).
+Proof.
+  intros s t rest Jh B s1.
+  destruct (J_SiTm _ _ Jh) as [HI HR]. pose proof (J_AgTm _ _ Jh) as GT.
+  destruct (heap_pop_spec (heap s) t rest HI B) as (I' & T0 & T1 & T2 & T3 & _).
+  set (h' := HeapModel.set_idx (HeapModel.set_batch (heap s) rest) t (-1)) in *.
+  set (j := Zpos t - 1).
+  assert (TR : Zpos t <= 16) by (apply HR; lia).
+  assert (JR : inr16 j) by (unfold inr16, j; lia).
+  assert (TJ : tmid j = t) by (unfold tmid, j; replace (Zpos t - 1 + 1) with (Zpos t) by lia; reflexivity).
+  (* the state: only heap and (time, time_valid) differ from s *)
+  assert (ST : heap s1 = h' /\ fdt s1 = fdt s /\ tasks s1 = tasks s /\ cur s1 = cur s /\ ev_pending s1 = ev_pending s /\
+               ev_batch s1 = ev_batch s /\ ev_count s1 = ev_count s /\ ev_reg s1 = ev_reg s /\ use_raw s1 = use_raw s /\
+               rw_reg s1 = rw_reg s /\ quit s1 = quit s /\ kern s1 = kern s /\ active s1 = active s /\
+               handled s1 = handled s /\ notify s1 = notify s /\ method s1 = method s /\ pfds s1 = pfds s /\
+               pkeys s1 = pkeys s /\ trace s1 = trace s /\ time_valid s1 = true /\
+               (time_valid s = true -> time s1 = time s) /\ (time_valid s = false -> time s1 = clock (kern s))).
+  { unfold s1, validate_now. cbn [time_valid set_heap]. destruct (time_valid s) eqn:TV; repeat split; auto; discriminate. }
+  destruct ST as (S1 & S2 & S3 & S4 & S5 & S6 & S7 & S8 & S9 & S10 & S11 & S12 & S13 & S14 & S15 & S16 & S17 & S18 & S19 & S20 & S21 & S22).
+  assert (TC : time s1 <= clock (kern s)).
+  { destruct (time_valid s) eqn:TV; [rewrite S21 by reflexivity; apply (si_time _ (j_si _ _ Jh)); exact TV|rewrite S22 by reflexivity; lia]. }
+  apply J_emit_step.
+  assert (MS : mst s1 = mst s) by (apply mst_trace; exact S19). rewrite MS.
+  set (m' := mon_step (mst s) (TCallTimer j (time s1))).
+  destruct (mview_fields m' _ (mview_TCallTimer (mst s) j (time s1))) as (Q1 & Q2 & Q3 & Q4 & Q5 & Q6 & Q7 & Q8 & Q9 & Q10 & Q11 & Q12).
+  cbn [a_fd a_fh a_ck a_tm a_exp a_tk a_ev a_evp a_rw a_main a_quit a_clk m_tms] in *.
+  destruct (GT j JR) as [GJ1 GJ2].
+  apply (JM_upd true s s1 m' Jh); try assumption.
+  - unfold m'. apply good_TCallTimer; [apply (j_good _ _ Jh)|apply (j_main _ _ Jh)| |].
+    + rewrite GJ1. unfold timer_registered. rewrite TJ, T0. reflexivity.
+    + rewrite (ag_clk _ _ (j_ag _ _ Jh)). exact TC.
+  - left. split; [intros i _; rewrite S2; apply fkeep_refl|auto].
+  - right. intros y Y. rewrite Q4, Q5. unfold upd, timer_registered. rewrite S1.
+    destruct (Z.eqb_spec y j) as [->|N].
+    + rewrite TJ, T1. cbn. split; [reflexivity|discriminate].
+    + assert (NT : tmid y <> t).
+      { rewrite <- TJ. intros E. apply N. apply tmid_inj; [apply Y|apply JR|exact E]. }
+      destruct (GT y Y) as [G1 G2]. unfold timer_registered in G1, G2. rewrite (T2 _ NT), T3. split; assumption.
+  - left. auto.
+  - left. auto.
+  - left. auto.
+  - left. auto.
+  - left. rewrite S12. auto.
+  - right. split; rewrite S1; [exact I'|].
+    intros t' H. destruct (Pos.eq_dec t' t) as [->|N]; [exact TR|]. apply HR. rewrite <- (T2 _ N). exact H.
+  - right. intros _. rewrite S12. exact TC.
+  - left. auto.
+  - left. auto.
+  - apply (FdI_keep s s1 (-1) (j_fd _ _ Jh)); try assumption; rewrite S12; reflexivity.
+  - apply (FdX_keep s s1 (j_fx _ _ Jh)); try assumption; intros; rewrite S2; repeat split.
+Qed.
+
+Lemma timers_dispatch_post : forall fuel s, J true s -> Post true s (timers_dispatch sc fuel s).
+Proof.
+  induction fuel as [|fuel IH]; intros s Jh; cbn [timers_dispatch].
+  - destruct (HeapModel.batch (heap s)) as [|t rest]; [apply Post_same; assumption|].
+    cbn [Post halt]. rewrite mst_emit. apply good_quiet; [right; left; reflexivity|apply (j_good _ _ Jh)].
+  - destruct (HeapModel.batch (heap s)) as [|t rest] eqn:B; [apply Post_same; assumption|].
+    pose proof (J_call_timer s t rest Jh B) as J1. cbv zeta in J1.
+    set (s1 := validate_now _) in *.
+    assert (F1 : Fr s (emit s1 (TCallTimer (Z.pos t - 1) (time s1)))).
+    { unfold s1, validate_now. cbn [time_valid set_heap]. destruct (time_valid s); apply Fr_plain; reflexivity. }
+    eapply Post_fr; [exact F1|].
+    eapply Post_bind; [apply run_script_post; exact J1|].
+    intros s2 J2 _. apply IH. exact J2.
+Qed.
+
+Lemma run_timers_post : forall s, J true s -> Post true s (run_timers sc s).
+Proof.
+  intros s Jh. unfold run_timers.
+  destruct (HeapModel.num (heap s) =? 0); [apply Post_same; assumption|].
+  destruct (J_validate true s Jh) as (J1 & F1 & M1 & _).
+  set (s1 := validate_now s) in *.
+  eapply Post_fr; [exact F1|].
+  destruct (J_SiTm _ _ J1) as [HI HR]. pose proof (J_AgTm _ _ J1) as GT.
+  destruct (heap_collect_spec (heap s1) (time s1) HI) as (h' & C & I' & T).
+  rewrite C. unfold lift_heap. cbn [bind].
+  set (s2 := set_numobjs (set_heap s1 h') _).
+  assert (J2 : J true s2).
+  { apply (J_upd true s1 s2 J1); try reflexivity; try (apply (j_good _ _ J1));
+      try (solve [left; repeat split; first [reflexivity | intros; apply fkeep_refl]]).
+    - right. intros y Y. destruct (GT y Y) as [G1 G2]. unfold timer_registered in *.
+      cbn [s2 heap set_numobjs set_heap]. destruct (T (tmid y)) as [T1 T2].
+      rewrite (treg_iff _ _ _ _ T1), T2. split; assumption.
+    - right. split; cbn [s2 heap set_numobjs set_heap]; [exact I'|].
+      intros t H. apply HR. intros E. apply H. apply (proj1 (T t)). exact E.
+    - apply (FdI_keep s1 s2 (-1) (j_fd _ _ J1)); reflexivity.
+    - apply (FdX_keep s1 s2 (j_fx _ _ J1)); try reflexivity; intros; repeat split. }
+  eapply Post_fr; [apply (Fr_plain s1 s2); reflexivity|].
+  apply timers_dispatch_post. exact J2.
+Qed.
+
+(* ---------- iv_run_tasks ---------- *)
+Definition PostT (s : core) (r : res) : Prop :=
+  match r with R s' => J true s' /\ cur s' = None | Halt s' => Goodm (mst s') end.
+
+Lemma J_pop_task : forall s k rest, J true s -> cur s = Some (k :: rest) ->
+  let s3 := set_epoch (set_numobjs (set_tasks s (tasks s) (Some rest)) (numobjs s - 1)) (epoch s) (upd (tepoch s) k (epoch s)) in
+  (k = LOCAL_TASK -> J true s3) /\ (k <> LOCAL_TASK -> J true (emit s3 (TCallTask k))).
+Proof.
+  intros s k rest Jh C s3.
+  destruct (J_SiTk _ _ Jh) as [S1 S2]. pose proof (J_AgTk _ _ Jh) as GK.
+  assert (CL : tasks s ++ curl s = tasks s ++ k :: rest) by (unfold curl; rewrite C; reflexivity).
+  assert (CL3 : tasks s3 ++ curl s3 = tasks s ++ rest) by reflexivity.
+  rewrite CL in S1, S2.
+  assert (ND : ~ In k (tasks s ++ rest) /\ NoDup (tasks s ++ rest)) by (apply NoDup_remove in S2; tauto).
+  destruct ND as [NI ND].
+  assert (KR : 0 <= k <= 16) by (apply S1; apply in_or_app; right; left; reflexivity).
+  assert (TR : forall y, task_registered s3 y = if y =? k then false else task_registered s y).
+  { intros y. apply bool_eq_iff. rewrite task_registered_In, CL3.
+    destruct (Z.eqb_spec y k) as [->|N]; [split; [contradiction|discriminate]|].
+    rewrite task_registered_In, CL, !in_app_iff. cbn [In]. intuition. }
+  assert (SK3 : SiTk s3).
+  { split; rewrite CL3; [|exact ND]. intros y H. apply S1. apply in_app_or in H. apply in_or_app.
+    destruct H; [auto|right; right; assumption]. }
+  assert (COMMON : forall m', a_main m' = a_main (mst s) -> Goodm m' ->
+            a_fd m' = a_fd (mst s) -> a_fh m' = a_fh (mst s) -> a_ck m' = a_ck (mst s) -> a_tm m' = a_tm (mst s) ->
+            a_exp m' = a_exp (mst s) -> a_ev m' = a_ev (mst s) -> a_evp m' = a_evp (mst s) -> a_rw m' = a_rw (mst s) ->
+            a_quit m' = a_quit (mst s) -> a_clk m' = a_clk (mst s) -> AgTk s3 m' -> JM true s3 m').
+  { intros m' Q10 G Q1 Q2 Q3 Q4 Q5 Q7 Q8 Q9 Q11 Q12 AK.
+    apply (JM_upd true s s3 m' Jh); try assumption;
+      try (solve [left; repeat split; first [reflexivity | assumption | intros; apply fkeep_refl]]).
+    - right. exact AK.
+    - right. exact SK3.
+    - apply (FdI_keep s s3 (-1) (j_fd _ _ Jh)); reflexivity.
+    - apply (FdX_keep s s3 (j_fx _ _ Jh)); try reflexivity; intros; repeat split. }
+  split.
+  - intros EK. apply J_JM. change (mst s3) with (mst s).
+    apply COMMON; try reflexivity; [apply (j_good _ _ Jh)|].
+    intros y Y. rewrite TR. destruct (Z.eqb_spec y k) as [->|N]; [unfold inr16, LOCAL_TASK in *; lia|apply GK; exact Y].
+  - intros NK. apply J_emit_step. change (mst s3) with (mst s).
+    assert (IK : inr16 k) by (unfold inr16, LOCAL_TASK in *; lia).
+    set (m' := mon_step (mst s) (TCallTask k)).
+    destruct (mview_fields m' _ (mview_TCallTask (mst s) k)) as (Q1 & Q2 & Q3 & Q4 & Q5 & Q6 & Q7 & Q8 & Q9 & Q10 & Q11 & Q12).
+    cbn [a_fd a_fh a_ck a_tm a_exp a_tk a_ev a_evp a_rw a_main a_quit a_clk m_tks] in *.
+    apply COMMON; try assumption.
+    + unfold m'. apply good_TCallTask; [apply (j_good _ _ Jh)|apply (j_main _ _ Jh)|].
+      rewrite (GK k IK). apply task_registered_In. rewrite CL. apply in_or_app. right. left. reflexivity.
+    + intros y Y. rewrite Q6, TR. unfold upd. destruct (Z.eqb_spec y k); [reflexivity|apply GK; exact Y].
+Qed.
+
+Lemma tasks_loop_post : forall fuel s, J true s -> PostT s (tasks_loop sc fuel s).
+Proof.
+  induction fuel as [|fuel IH]; intros s Jh; cbn [tasks_loop].
+  - destruct (cur s) as [[|k rest]|] eqn:C.
+    + cbn [PostT]. split; [|reflexivity].
+      apply (J_upd true s _ Jh); try reflexivity; try (apply (j_good _ _ Jh));
+        try (solve [left; repeat split; first [reflexivity | intros; apply fkeep_refl]]).
+      * right. intros y Y. rewrite (J_AgTk _ _ Jh y Y). unfold task_registered. cbn [tasks cur set_tasks]. rewrite C. reflexivity.
+      * right. destruct (J_SiTk _ _ Jh) as [S1 S2]. unfold SiTk, curl in *. cbn [tasks cur set_tasks]. rewrite C in S1, S2. split; assumption.
+      * apply (FdI_keep s _ (-1) (j_fd _ _ Jh)); reflexivity.
+      * apply (FdX_keep s _ (j_fx _ _ Jh)); try reflexivity; intros; repeat split.
+    + cbn [PostT halt]. rewrite mst_emit. apply good_quiet; [right; left; reflexivity|apply (j_good _ _ Jh)].
+    + cbn [PostT]. auto.
+  - destruct (cur s) as [[|k rest]|] eqn:C.
+    + cbn [PostT]. split; [|reflexivity].
+      apply (J_upd true s _ Jh); try reflexivity; try (apply (j_good _ _ Jh));
+        try (solve [left; repeat split; first [reflexivity | intros; apply fkeep_refl]]).
+      * right. intros y Y. rewrite (J_AgTk _ _ Jh y Y). unfold task_registered. cbn [tasks cur set_tasks]. rewrite C. reflexivity.
+      * right. destruct (J_SiTk _ _ Jh) as [S1 S2]. unfold SiTk, curl in *. cbn [tasks cur set_tasks]. rewrite C in S1, S2. split; assumption.
+      * apply (FdI_keep s _ (-1) (j_fd _ _ Jh)); reflexivity.
+      * apply (FdX_keep s _ (j_fx _ _ Jh)); try reflexivity; intros; repeat split.
+    + destruct (J_pop_task s k rest Jh C) as [JL JN]. cbv zeta in JL, JN.
+      set (s3 := set_epoch _ _ _) in *.
+      assert (K : forall r, Post true s3 r \/ (exists s4, Fr s4 s4 /\ Post true s4 r) -> PostT s (bind r (tasks_loop sc fuel))).
+      { intros r P. assert (P' : match r with R s' => J true s' | Halt s' => Goodm (mst s') end).
+        { destruct P as [P|(s4 & _ & P)]; destruct r; cbn [Post] in P; tauto. }
+        destruct r as [s5|s5]; cbn [bind PostT]; [apply IH; exact P'|exact P']. }
+      destruct (Z.eqb_spec k LOCAL_TASK) as [EK|NK].
+      * apply K. left. apply run_pending_events_post. apply JL. exact EK.
+      * apply K. right. exists (emit s3 (TCallTask k)). split; [apply Fr_refl|].
+        apply run_script_post. apply JN. exact NK.
+    + cbn [PostT]. auto.
+Qed.
+
+Lemma run_tasks_post : forall s, J true s -> cur s = None -> PostT s (run_tasks sc s).
+Proof.
+  intros s Jh C. unfold run_tasks.
+  set (s1 := set_epoch (set_tasks s [] (Some (tasks s))) _ _).
+  assert (J1 : J true s1).
+  { apply (J_upd true s s1 Jh); try reflexivity; try (apply (j_good _ _ Jh));
+      try (solve [left; repeat split; first [reflexivity | intros; apply fkeep_refl]]).
+    - right. intros y Y. rewrite (J_AgTk _ _ Jh y Y). unfold task_registered. cbn [s1 tasks cur set_tasks set_epoch].
+      rewrite C. cbn [mem_z existsb orb]. rewrite orb_false_r. reflexivity.
+    - right. destruct (J_SiTk _ _ Jh) as [S1 S2]. unfold SiTk, curl in *. cbn [s1 tasks cur set_tasks set_epoch].
+      rewrite C in S1, S2. rewrite app_nil_r in S1, S2. split; assumption.
+    - apply (FdI_keep s s1 (-1) (j_fd _ _ Jh)); reflexivity.
+    - apply (FdX_keep s s1 (j_fx _ _ Jh)); try reflexivity; intros; repeat split. }
+  pose proof (tasks_loop_post 64 s1 J1) as P. destruct (tasks_loop sc 64 s1); exact P.
+Qed.
 End Loop.
